@@ -21,6 +21,9 @@ pub struct Case {
     /// the suite's default instance for this case (DynKsf suites only)
     pub default_spec: KsfSpec,
     pub tape: Tape,
+    /// pass clones of the parameter structs to the API (exercises their Clone impls)
+    #[serde(default)]
+    pub clone_params: bool,
 }
 
 pub fn strategy(s: &'static dyn Proto) -> BoxedStrategy<Case> {
@@ -35,13 +38,14 @@ pub fn strategy(s: &'static dyn Proto) -> BoxedStrategy<Case> {
         KsfKind::RealArgon2 => Just(KsfSpec::Argon2Default).boxed(),
         KsfKind::Zst => Just(KsfSpec::H(ksf::ZST_FAMILY)).boxed(),
     };
-    (gen::bytes_param(), gen::cred_id(), gen::opt_ctx(gen::bytes_small()), def, gen::tape())
-        .prop_map(|(pw, cred, ctx, default_spec, tape)| Case {
+    (gen::bytes_param(), gen::cred_id(), gen::opt_ctx(gen::bytes_small()), def, gen::tape(), any::<bool>())
+        .prop_map(|(pw, cred, ctx, default_spec, tape, clone_params)| Case {
             pw,
             cred,
             ctx,
             default_spec,
             tape,
+            clone_params,
         })
         .boxed()
 }
@@ -84,6 +88,14 @@ struct Reg {
 }
 
 pub fn check(s: &'static dyn Proto, c: &Case, st: &mut Stats, _k: &KnownFindings) -> CaseResult {
+    set_clone_params(c.clone_params);
+    let r = check_inner(s, c, st);
+    set_clone_params(false);
+    ksf::set_default_spec(KsfSpec::Identity);
+    r
+}
+
+fn check_inner(s: &'static dyn Proto, c: &Case, st: &mut Stats) -> CaseResult {
     let m = s.meta();
     let suite = Suite::of(&m);
     let journalled = matches!(m.ksf, KsfKind::Dyn | KsfKind::Zst);
